@@ -393,9 +393,11 @@ def run_irc_check(ck, prop, prefix, replay, n_quick=120, n_thorough=2500, kinds=
             cases.append(gen.history(ks[len(cases) % len(ks)]))
         if extra:
             cases += extra(gen)
-        if prop == "C03":
+        if True:
             # every history is saved and loaded at its end (whatever it built up is compared field by field) and once
-            # somewhere in its second half (the continuation is compared with the run without save+load)
+            # somewhere in its second half (the continuation is compared with the run without save+load): restore is
+            # part of every replica's life, so every property is judged across it (C03 compares the dumps; C06 nil maps
+            # after a restore; C13/C14/C17 state that a restore must not grant, break or expire anything)
             for c in cases[ncorp:]:
                 n_e = len(c["entries"])
                 if n_e > 8:
